@@ -23,7 +23,7 @@ def proof_stage(res, pid, gens=()):
             tables.regenerate(gens, res)
     except Exception as ex:  # generator does not build/run against this tree
         return False, "table generator failed: %s" % str(ex)[-1500:]
-    bad = coq.forbidden_scan()
+    bad = coq.forbidden_scan(pid)
     if bad:
         return False, "forbidden constructs in the Coq development: " + "; ".join(bad[:5])
     ok, err = coq.check_property_file(pid, res)
